@@ -549,16 +549,12 @@ theorem C02_D16_literal_empty_violates :
     exact emptyA_sentence
 
 /-- gocc's front end does not refuse the grammar of D16: with the lexical part `a : 'a' ; b : 'b'`
-    (and the token `empty` that `UpdateStringLitTokens` adds for the literal) `semCheck` passes, and
+    (as written: the token for the literal is added by `UpdateStringLitTokens` only after the checks) `semCheck` passes, and
     every assumption of `spellingsOk_of_semCheck` but `NoLiteralEmptyFirst` holds -/
 theorem C02_D16_not_refused :
-    semCheck { lex := [⟨.tok, "a", .mk [.mk [.lit 97]], false⟩, ⟨.tok, "b", .mk [.mk [.lit 98]], false⟩,
-                       ⟨.tok, "empty", .mk [.mk [.lit 101, .lit 109, .lit 112, .lit 116, .lit 121]],
-                         true⟩],
+    semCheck { lex := [⟨.tok, "a", .mk [.mk [.lit 97]], false⟩, ⟨.tok, "b", .mk [.mk [.lit 98]], false⟩],
                syn := C02KindD16.syn } = .ok () ∧
-    KindsOk { lex := [⟨.tok, "a", .mk [.mk [.lit 97]], false⟩, ⟨.tok, "b", .mk [.mk [.lit 98]], false⟩,
-                      ⟨.tok, "empty", .mk [.mk [.lit 101, .lit 109, .lit 112, .lit 116, .lit 121]],
-                        true⟩],
+    KindsOk { lex := [⟨.tok, "a", .mk [.mk [.lit 97]], false⟩, ⟨.tok, "b", .mk [.mk [.lit 98]], false⟩],
               syn := C02KindD16.syn } ∧
     TokIdsNotHeads C02KindD16.syn ∧ ¬ NoLiteralEmptyFirst C02KindD16.syn := by
   decide
